@@ -107,7 +107,15 @@ fn run_history<S: CredentialStore<PasskeyItem = Passkey> + Sync + Send>(ctx: &mu
                 let target = known.filter(|_| !regs.is_empty()).map(|k| idx(k, regs.len()));
                 let (application, handle) = match target {
                     Some(t) => (if *wrong_app { app(7) } else { regs[t].app }, regs[t].handle.clone()),
-                    None => (app(0), [b"unknown-".as_slice(), unknown].concat()),
+                    // an unknown handle: usually a fresh string, sometimes the empty handle or a prefix of a registered one
+                    None => (
+                        app(*counter as u8),
+                        match unknown.len() % 4 {
+                            0 => vec![],
+                            1 if !regs.is_empty() => regs[0].handle.iter().take(regs[0].handle.len() / 2).copied().collect(),
+                            _ => [b"unknown-".as_slice(), unknown].concat(),
+                        },
+                    ),
                 };
                 let expect_known = regs.iter().any(|r| r.app == application && r.handle == handle);
                 // a registered handle presented with another application is not constrained by the statement
